@@ -38,10 +38,31 @@ abbrev Bytes := Array UInt8
 
 def u8 (b : Bytes) (i : Nat) : Option Nat := b[i]?.map (·.toNat)
 
-def u16 (b : Bytes) (i : Nat) : Option Nat := do
-  let lo ← u8 b i
-  let hi ← u8 b (i + 1)
-  pure (lo + 256 * hi)
+def u16 (b : Bytes) (i : Nat) : Option Nat :=
+  match u8 b i, u8 b (i + 1) with
+  | some lo, some hi => some (lo + 256 * hi)
+  | _, _ => none
+
+/-- `cnt` consecutive bytes starting at byte `pos` -/
+def bytes8 (b : Bytes) : (pos cnt : Nat) → Option (List Nat)
+  | _, 0 => some []
+  | pos, cnt + 1 =>
+    match u8 b pos, bytes8 b (pos + 1) cnt with
+    | some x, some xs => some (x :: xs)
+    | _, _ => none
+
+/-- `cnt` consecutive little-endian 16-bit words starting at byte `pos` -/
+def words16 (b : Bytes) : (pos cnt : Nat) → Option (List Nat)
+  | _, 0 => some []
+  | pos, cnt + 1 =>
+    match u16 b pos, words16 b (pos + 2) cnt with
+    | some x, some xs => some (x :: xs)
+    | _, _ => none
+
+/-- consecutive words taken two by two: the `rle16_t` records (value, length) -/
+def rlePairs : List Nat → List (Nat × Nat)
+  | v :: l :: t => (v, l) :: rlePairs t
+  | _ => []
 
 def ascending : List Nat → Bool
   | a :: c :: t => a < c && ascending (c :: t)
@@ -53,79 +74,99 @@ def runsDisjoint : List (Nat × Nat) → Bool
   | (v, l) :: (v', l') :: t => v + l < v' && runsDisjoint ((v', l') :: t)
   | [] => true
 
+/-- the 8 bits of a byte, least significant first -/
+def bitsOfByte (x : Nat) : List Bool := (List.range 8).map fun t => x / 2 ^ t % 2 == 1
+
+/-- boundaries of `{pos + j | bits[j]}` (`prev` = the bit just below `pos`): one wherever consecutive bits differ, and
+a closing one after the last bit if it is set -/
+def boundaries : (pos : Nat) → (prev : Bool) → List Bool → BSet
+  | pos, prev, [] => if prev then [pos] else []
+  | pos, prev, bit :: t => if bit != prev then pos :: boundaries (pos + 1) bit t else boundaries (pos + 1) prev t
+
 /-- boundary list and population count of the 8192-byte bitset stored at byte `pos`, shifted by `base` -/
-def bitset (b : Bytes) (pos base : Nat) : Option (BSet × Nat) := do
-  let mut out : Array Nat := #[]
-  let mut prev := false
-  let mut count := 0
-  for k in [0:8192] do
-    let byte ← u8 b (pos + k)
-    for t in [0:8] do
-      let bit := byte / 2 ^ t % 2 == 1
-      if bit then count := count + 1
-      if bit != prev then out := out.push (base + 8 * k + t)
-      prev := bit
-  if prev then out := out.push (base + 65536)
-  pure (out.toList, count)
+def bitset (b : Bytes) (pos base : Nat) : Option (BSet × Nat) :=
+  match bytes8 b pos 8192 with
+  | none => none
+  | some bytes =>
+    -- low value j = bit (j % 8) of byte (j / 8)
+    let bits := bytes.flatMap bitsOfByte
+    some (boundaries base false bits, bits.count true)
+
+/-- sizes of the arenas, from the type codes and counts of containers `i, i+1, …, i+cnt-1`:
+(number of bitset containers, total number of runs, total number of array values), added to the given totals -/
+def arenaSizes (b : Bytes) (typesAt countsAt : Nat) : (i cnt : Nat) → (nBitset nRuns nVals : Nat) → Option (Nat × Nat × Nat)
+  | _, 0, nBitset, nRuns, nVals => some (nBitset, nRuns, nVals)
+  | i, cnt + 1, nBitset, nRuns, nVals =>
+    match u8 b (typesAt + i), u16 b (countsAt + 2 * i) with
+    | some t, some c =>
+      if t == 1 then arenaSizes b typesAt countsAt (i + 1) cnt (nBitset + 1) nRuns nVals
+      else if t == 2 then arenaSizes b typesAt countsAt (i + 1) cnt nBitset nRuns (nVals + c + 1)
+      else if t == 3 then arenaSizes b typesAt countsAt (i + 1) cnt nBitset (nRuns + c) nVals
+      else none
+    | _, _ => none
+
+/-- containers appear in strictly increasing key order (`prevKey` = key of the previous container, if any) -/
+def keyAfter (prevKey : Option Nat) (key : Nat) : Bool :=
+  match prevKey with
+  | some p => p < key
+  | none => true
+
+/-- the sets of containers `i, i+1, …, i+cnt-1`; `prevKey` = key of container `i-1`; `bitsetAt`, `runAt`, `arrayAt` =
+where the data of the next container of each type starts in its arena -/
+def containerSets (b : Bytes) (typesAt countsAt keysAt : Nat) :
+    (i cnt : Nat) → (prevKey : Option Nat) → (bitsetAt runAt arrayAt : Nat) → Option (List BSet)
+  | _, 0, _, _, _, _ => some []
+  | i, cnt + 1, prevKey, bitsetAt, runAt, arrayAt =>
+    match u8 b (typesAt + i), u16 b (countsAt + 2 * i), u16 b (keysAt + 2 * i) with
+    | some t, some c, some key =>
+      if !keyAfter prevKey key then none else
+      let base := key * 65536
+      if t == 1 then
+        match bitset b bitsetAt base with
+        | none => none
+        | some (s, n) =>
+          if n != c + 1 then none else
+          (containerSets b typesAt countsAt keysAt (i + 1) cnt (some key) (bitsetAt + 8192) runAt arrayAt).map (s :: ·)
+      else if t == 2 then
+        match words16 b arrayAt (c + 1) with
+        | none => none
+        | some vs =>
+          if !ascending vs then none else
+          (containerSets b typesAt countsAt keysAt (i + 1) cnt (some key) bitsetAt runAt (arrayAt + 2 * (c + 1))).map
+            (Driver.unionAll (vs.map fun v => [base + v, base + v + 1]) :: ·)
+      else
+        if c == 0 then none else
+        match words16 b runAt (2 * c) with
+        | none => none
+        | some ws =>
+          let rs := rlePairs ws
+          if !runsDisjoint rs then none else
+          (containerSets b typesAt countsAt keysAt (i + 1) cnt (some key) bitsetAt (runAt + 4 * c) arrayAt).map
+            (Driver.unionAll (rs.map fun (v, l) => [base + v, base + v + l + 1]) :: ·)
+    | _, _, _ => none
 
 /-- `frozenSpecDecode bytes = some S` : `bytes` is a conformant frozen stream and encodes the set `S` -/
-def frozenSpecDecode (b : Bytes) : Option BSet := do
+def frozenSpecDecode (b : Bytes) : Option BSet :=
   let len := b.size
-  if len < 4 then none
-  let hlo ← u16 b (len - 4)
-  let hhi ← u16 b (len - 2)
-  let header := hlo + 65536 * hhi
-  if header % 32768 != 13766 then none
-  let n := header / 32768
-  if n > 65536 then none
-  if len < 4 + 5 * n then none
-  let typesAt := len - 4 - n
-  let countsAt := typesAt - 2 * n
-  let keysAt := countsAt - 2 * n
-  let mut bitsetAt := 0
-  -- sizes of the arenas, from the type codes and counts
-  let mut nBitset := 0
-  let mut nRuns := 0
-  let mut nVals := 0
-  for i in [0:n] do
-    let t ← u8 b (typesAt + i)
-    let c ← u16 b (countsAt + 2 * i)
-    if t == 1 then nBitset := nBitset + 1
-    else if t == 2 then nVals := nVals + c + 1
-    else if t == 3 then nRuns := nRuns + c
-    else none
-  let mut runAt := 8192 * nBitset
-  let mut arrayAt := runAt + 4 * nRuns
-  if arrayAt + 2 * nVals != keysAt then none
-  let mut sets : Array BSet := #[]
-  let mut prevKey : Option Nat := none
-  for i in [0:n] do
-    let t ← u8 b (typesAt + i)
-    let c ← u16 b (countsAt + 2 * i)
-    let key ← u16 b (keysAt + 2 * i)
-    if let some p := prevKey then
-      if key ≤ p then none
-    prevKey := some key
-    let base := key * 65536
-    if t == 1 then
-      let (s, cnt) ← bitset b bitsetAt base
-      if cnt != c + 1 then none
-      sets := sets.push s
-      bitsetAt := bitsetAt + 8192
-    else if t == 2 then
-      let vs ← (List.range (c + 1)).mapM fun k => u16 b (arrayAt + 2 * k)
-      if !ascending vs then none
-      sets := sets.push (Driver.unionAll (vs.map fun v => [base + v, base + v + 1]))
-      arrayAt := arrayAt + 2 * (c + 1)
-    else
-      if c == 0 then none
-      let rs ← (List.range c).mapM fun k => do
-        let v ← u16 b (runAt + 4 * k)
-        let l ← u16 b (runAt + 4 * k + 2)
-        pure (v, l)
-      if !runsDisjoint rs then none
-      sets := sets.push (Driver.unionAll (rs.map fun (v, l) => [base + v, base + v + l + 1]))
-      runAt := runAt + 4 * c
-  pure (Driver.unionAll sets.toList)
+  if len < 4 then none else
+  match u16 b (len - 4), u16 b (len - 2) with
+  | some hlo, some hhi =>
+    let header := hlo + 65536 * hhi
+    if header % 32768 != 13766 then none else
+    let n := header / 32768
+    if n > 65536 then none else
+    if len < 4 + 5 * n then none else
+    let typesAt := len - 4 - n
+    let countsAt := typesAt - 2 * n
+    let keysAt := countsAt - 2 * n
+    -- sizes of the arenas, from the type codes and counts
+    match arenaSizes b typesAt countsAt 0 n 0 0 0 with
+    | none => none
+    | some (nBitset, nRuns, nVals) =>
+      let runAt := 8192 * nBitset
+      let arrayAt := runAt + 4 * nRuns
+      if arrayAt + 2 * nVals != keysAt then none else
+      (containerSets b typesAt countsAt keysAt 0 n none 0 runAt arrayAt).map Driver.unionAll
+  | _, _ => none
 
 end RModel.FrozenSpec
